@@ -25,7 +25,46 @@ const (
 	ExactMax = 600
 )
 
-type Obs struct{ L []uint64 }
+type Obs struct {
+	L       []uint64
+	Verbose bool // record labels (only for --explain output)
+	marks   []mark
+}
+
+type mark struct {
+	at    int
+	label string
+}
+
+// Mark labels the numbers added from here on (for Explain)
+func (o *Obs) Mark(format string, a ...any) {
+	if !o.Verbose {
+		return
+	}
+	o.marks = append(o.marks, mark{len(o.L), fmt.Sprintf(format, a...)})
+}
+
+// Explain renders the observation with its labels, one label per line
+func (o *Obs) Explain() string {
+	var sb strings.Builder
+	for i, m := range o.marks {
+		end := len(o.L)
+		if i+1 < len(o.marks) {
+			end = o.marks[i+1].at
+		}
+		seg := o.L[m.at:end]
+		if len(seg) > 48 {
+			fmt.Fprintf(&sb, "  %-34s %v ... (%d numbers)\n", m.label+":", seg[:48], len(seg))
+		} else {
+			fmt.Fprintf(&sb, "  %-34s %v\n", m.label+":", seg)
+		}
+		if i > 400 {
+			sb.WriteString("  ...\n")
+			break
+		}
+	}
+	return sb.String()
+}
 
 func (o *Obs) Add(xs ...uint64) { o.L = append(o.L, xs...) }
 
